@@ -1,7 +1,7 @@
 #!/venv/bin/python
 """print one line per evaluation log in build/seed2logs (development tool)"""
 import glob, json, os, sys
-for p in sorted(glob.glob(os.path.join(os.path.dirname(os.path.dirname(os.path.abspath(__file__))), 'build', 'seed2logs', '*.log'))):
+for p in sorted(glob.glob(os.path.join(os.path.dirname(os.path.dirname(os.path.abspath(__file__))), 'build', os.environ.get('SEEDLOGS', 'seed2logs'), '*.log'))):
     t = open(p).read(); i = t.find('{\n')
     try:
         d = json.loads(t[i:])
